@@ -58,6 +58,7 @@ var errTable = map[string][]errSpec{
 }
 
 var errExceptions = []errFlowException{
+	{"p2p.sendMessage", "invoke:Close", "a failed Close of a stream whose responses were all read is only logged: the request itself succeeded"},
 	{"p2p.sendMessage", "invoke:SetDeadline", "a failed SetDeadline is only logged: the request proceeds without a stream deadline, the request context still bounds it"},
 	{"sync.(*Syncer).networkHead", "syncHead[H]).Head#1", "by design (C19.b failed-request-keeps-head): when the request for a more recent head fails, the current subjective head is returned with a nil error"},
 	{"sync.(*Syncer).networkHead", "incomingNetworkHead", "by design (C19.b): a refused soft-failing head leaves the subjective head unchanged, returned with a nil error"},
